@@ -959,6 +959,51 @@ def fam_history(rng, n, tier, mode="exact", metamorphic=False):
 def fam_release(rng, n, tier, mode="exact"):
     """C18: build, differentiate, drop every derived result, then every leaf must own its buffer"""
     cases = []
+    # systematic part: every operation once, tracked or not, differentiated or not; after the result is
+    # dropped each operand must be the sole owner of its buffer again (no closure, cache or cell keeps it)
+    fl = mode != "exact"
+    singles = [("add", ["add r a b"], {"a": [2, 2], "b": [2]}), ("sub", ["sub r a b"], {"a": [2, 2], "b": [2, 2]}),
+               ("mul", ["mul r a b"], {"a": [2, 2], "b": [1, 2]}), ("neg", ["neg r a"], {"a": [3]}),
+               ("scale", ["scale r a %s" % sc(2, mode)], {"a": [3]}), ("powf", ["powf r a %s" % sc(2, mode)], {"a": [3]}),
+               ("relu", ["relu r a"], {"a": [2, 2]}), ("sum", ["sum r a 1"], {"a": [2, 3]}), ("sum2", ["sum r a 2"], {"a": [2, 3]}),
+               ("reshape", ["reshape r a 3,2"], {"a": [2, 3]}),
+               ("matmul", ["matmul r a N b T -"], {"a": [2, 3], "b": [2, 3]}),
+               ("matmulc", ["matmul r a N b N c"], {"a": [2, 3], "b": [3, 2], "c": [2]}),
+               ("matmulb", ["matmul r a T b N -"], {"a": [2, 3, 2], "b": [3, 2]}),
+               ("conv", ["conv r a b 1 1"], {"a": [1, 3, 3], "b": [2, 1, 2, 2]}),
+               ("convb", ["conv r a b 2 1"], {"a": [2, 2, 3, 4], "b": [1, 2, 2, 2]}),
+               ("axpy", ["axpy r %s a b" % sc(2, mode)], {"a": [2, 2], "b": [2, 2]}),
+               ("chain", ["mul t a b", "add r t a"], {"a": [2], "b": [2]})]
+    if fl:
+        singles += [("div", ["div r a b"], {"a": [2, 2], "b": [2]}), ("exp", ["exp r a"], {"a": [3]}), ("ln", ["ln r a"], {"a": [3]}),
+                    ("recip", ["recip r a"], {"a": [3]}), ("sigmoid", ["sigmoid r a"], {"a": [3]}), ("softmax", ["softmax r a"], {"a": [2, 3]})]
+    for (name, lines, leaves) in singles:
+        for tracked in (True, False):
+            for bw in ((True, False) if tracked else (False,)):
+                L = []
+                for nm, d in sorted(leaves.items()):
+                    L.append("new %s %s %s" % (nm, dims_s(d), vals_s(gen_vals(rng, prod(d), mode, "pos" if fl else "any"), mode)))
+                    if tracked:
+                        L.append("tracked %s" % nm)
+                L += lines
+                if bw:
+                    L.append("backward r -")
+                if "t" in " ".join(lines).split():
+                    L.append("drop t")
+                L.append("drop r")
+                for nm in sorted(leaves):
+                    L += ["probe %s" % nm, "own %s" % nm]
+                cases.append(Case(L, ("rel1", name, tracked, bw), ["release", "single", name], mode))
+    # layers hold their parameters, nothing else: the input is released once the outputs are dropped
+    for lay in (["dense L0 2 2 none %s %s" % (vals_s([1, 2, 3, 4], mode), vals_s([1, 1], mode))],
+                ["convl L0 1 1 2 2 1 1 none %s %s" % (vals_s([1, 2, 3, 4], mode), vals_s([1], mode))]):
+        xd = [2, 2] if lay[0].startswith("dense") else [1, 3, 3]
+        for bw in (False, True):
+            L = list(lay) + ["new x %s %s" % (dims_s(xd), vals_s(gen_vals(rng, prod(xd), mode), mode)), "lfwd h L0 x"]
+            if bw:
+                L.append("backward h -")
+            L += ["drop h", "probe x", "own x", "params L0"]
+            cases.append(Case(L, ("rellayer", lay[0].split(" ")[0], bw), ["release", "layer"], mode))
     for i in range(n):
         p = Prog(rng, mode)
         leaves = [p.new_leaf() for _ in range(rng.randint(1, 3))]
@@ -1108,7 +1153,22 @@ def fam_train(rng, n, tier, mode="exact", forward_only=False):
             continue
         L.append("model M %s %s %s" % (cost, sc(lr, mode), ",".join(layers)))
         iters = rng.randint(1, 3 if tier == "quick" else 5)
+        base_x, base_y = list(xdims), list(ydims)
         for it in range(iters):
+            # the batch size may change from one iteration to the next (a short last batch, unbatched input):
+            # every iteration's loss and step are those of the current batch
+            xdims, ydims = list(base_x), list(base_y)
+            if it > 0 and rng.random() < 0.6:
+                if kind == "dense":
+                    nb = rng.choice([None, 1, 2, 4]) if mode == "exact" else rng.choice([None, 1, 2, 3])
+                    xdims = [sizes[0]] if nb is None else [nb, sizes[0]]
+                    ydims = [1, sizes[-1]] if nb is None else [nb, sizes[-1]]
+                else:
+                    nb = rng.choice([None, 1, 2])
+                    xdims = ([] if nb is None else [nb]) + base_x[-3:]
+                    ydims = ([] if nb is None else [nb]) + base_y[-3:]
+                if mode == "exact" and (prod(ydims) & (prod(ydims) - 1)):
+                    xdims, ydims = list(base_x), list(base_y)
             xv = gen_vals(rng, prod(xdims), mode) if mode == "exact" else floats(rng, prod(xdims), -1, 1)
             if mode == "exact":
                 xv = [max(-2, min(2, v)) for v in xv]
@@ -1660,6 +1720,17 @@ def fam_cost(rng, n, tier, mode="exact"):
                  "new t %s %s" % (dims_s(s), vals_s(gen_vals(rng, prod(s), mode), mode)),
                  "cost c %s o t" % cost, "sumall c", "backward c -", "grad o"]
             cases.append(Case(L, ("cost", cost, tuple(s)), [cost, "rank%d" % len(s)], mode))
+    # one cost closure applied to a sequence of outputs of different sizes (the harness keeps one closure
+    # per kind for the whole case): every call normalises by its own argument's size
+    seqs = [[[4, 2], [2, 2], [4, 2]], [[2], [1, 2], [4, 2]], [[2, 2, 2], [2], [1, 2, 2]], [[1, 4], [4, 4], [2, 4]]]
+    for sq in seqs:
+        for cost in (["mse"] if mode == "exact" else ["mse", "xent"]):
+            L = []
+            for k, d in enumerate(sq):
+                L += ["new o%d %s %s" % (k, dims_s(d), vals_s(gen_vals(rng, prod(d), mode, "pos"), mode)), "tracked o%d" % k,
+                      "new t%d %s %s" % (k, dims_s(d), vals_s(gen_vals(rng, prod(d), mode), mode)),
+                      "cost c%d %s o%d t%d" % (k, cost, k, k), "backward c%d -" % k, "grad o%d" % k]
+            cases.append(Case(L, ("costseq", cost, tuple(map(tuple, sq))), [cost, "sequence"], mode))
     return cases
 
 
